@@ -13,6 +13,7 @@ import (
 	"fmt"
 	"math"
 	"os"
+	"os/exec"
 	"reflect"
 	"strings"
 )
@@ -401,3 +402,27 @@ func vTwoDirs() (string, string) {
 }
 
 func vUseRealMetaSchemas() {}
+
+func vAssumeWhole(c bool) { vAssume(c) }
+
+// vValidKind: the independent judge - python jsonschema's Draft4Validator on the shipped meta-schema
+func vValidKind(doc []byte, kind string) bool {
+	f, err := os.CreateTemp("", "verif-doc-*.json")
+	if err != nil {
+		panic(err)
+	}
+	defer os.Remove(f.Name())
+	f.Write(doc)
+	f.Close()
+	script := os.Getenv("VERIF_VALIDATE_PY")
+	cmd := exec.Command("/opt/veriftools/pyvenv/bin/python", script, f.Name(), kind)
+	out, err := cmd.CombinedOutput()
+	res := strings.TrimSpace(string(out))
+	if strings.HasSuffix(res, "VALID-YES") {
+		return true
+	}
+	if strings.HasSuffix(res, "VALID-NO") {
+		return false
+	}
+	panic("validator failed: " + res + " " + fmt.Sprint(err))
+}
